@@ -7,7 +7,8 @@
     Bound of the finite theorems ([in_domain l]): [l] sets only flags related by implies/exclusive
     metadata (the flags carrying such metadata or mentioned by it: 3^k on/off/absent assignments,
     k = length (relevant gm)), or only flags of the -O level table; each flag at most once; ANY order;
-    at every level of the table.  [c19_order_independent] has no bound on the flags involved. *)
+    at every level of the table.  [c19_order_independent], [c19_never_crashes] and the tokeniser theorems have no
+    bound on the arguments involved. *)
 From Coq Require Import NArith ZArith List Bool Permutation.
 From Coq Require String.
 Import String.StringSyntax.
@@ -77,25 +78,52 @@ Theorem c19_overrides_beat_level_opt : forall lv l c, In lv (levels gm) -> in_do
 Proof. exact overrides_beat_level_opt. Qed.
 Print Assumptions c19_overrides_beat_level_opt.
 
-(** unknown or malformed options are reported as errors (RuntimeError), for every table, argument tail and
-    parser state.  PARTIAL: the model itself shows malformed arguments that are not diagnosed (non-integer or
-    out-of-table -O level, "--flag a=b=c", unknown dump kind: [Crash]); see Flags/FlagsThms.v
-    [malformed_*_crashes] and the harness, which replays them on the implementation. *)
-Theorem c19_unknown_flag_is_error_partial : forall T v rest st,
+(** unknown or malformed options are reported as errors (RuntimeError) rather than ignored - for every table
+    [T], every argument tail and every parser state; and no command line whatsoever makes the front end raise
+    anything but RuntimeError.  (Out-of-fuel outcomes of the model are excluded on [in_domain] by
+    [c19_resolve_total]; for arbitrary override lists the termination of the "Set implies" loop within the
+    model's fuel is not proved - it is the one thing not covered by a theorem here.) *)
+Theorem c19_never_crashes : forall args k, run_cmdline gT args <> Crash k.
+Proof. exact never_crashes. Qed.
+Print Assumptions c19_never_crashes.
+Theorem c19_unknown_flag_is_error : forall T v rest st,
   assoc_str (t_names T) (flagify (if starts_with (s2l "no-") v then skipn 3 v else v)) = None ->
   tokenise T ((45 :: 102 :: v)%N :: rest) st = Error EUnknownFlag.
 Proof. exact unknown_flag_is_error. Qed.
-Print Assumptions c19_unknown_flag_is_error_partial.
-Theorem c19_unknown_option_is_error_partial : forall T c t rest st,
+Print Assumptions c19_unknown_flag_is_error.
+Theorem c19_unknown_long_flag_is_error : forall T v n b rest st,
+  parse_flag_arg false v = Ok (n, b) -> assoc_str (t_names T) (flagify n) = None ->
+  tokenise T (s2l "--flag" :: v :: rest) st = Error EUnknownFlag.
+Proof. exact unknown_long_flag_is_error. Qed.
+Print Assumptions c19_unknown_long_flag_is_error.
+Theorem c19_malformed_flag_value_is_error : forall T v n w rest st,
+  split_first 61 v [] = Some (n, w) -> flag_value w = None ->
+  tokenise T (s2l "--flag" :: v :: rest) st = Error EInvalidFlagValue.
+Proof. exact malformed_flag_value_is_error. Qed.
+Print Assumptions c19_malformed_flag_value_is_error.
+Theorem c19_malformed_level_is_error : forall T v rest st,
+  parse_level (t_meta T) v = None -> tokenise T ((45 :: 79 :: v)%N :: rest) st = Error EInvalidLevel.
+Proof. exact malformed_level_is_error. Qed.
+Print Assumptions c19_malformed_level_is_error.
+Theorem c19_unknown_dump_is_error : forall T v rest st,
+  parse_dumps (t_dumps T) (split_on 44 v []) = None -> tokenise T ((45 :: 100 :: v)%N :: rest) st = Error EUnknownDump.
+Proof. exact unknown_dump_is_error. Qed.
+Print Assumptions c19_unknown_dump_is_error.
+Theorem c19_unknown_option_is_error : forall T c t rest st,
   existsb (N.eqb c) [45; 111; 79; 102; 104; 100; 116]%N = false ->
   index_str (map fst (t_options T)) (flagify [c]) 0 = None ->
   tokenise T ((45 :: c :: t)%N :: rest) st = Error EUnknownOption.
 Proof. exact unknown_short_option_is_error. Qed.
-Print Assumptions c19_unknown_option_is_error_partial.
-Theorem c19_missing_value_is_error_partial : forall T name st, mem_str name no_value_names = false ->
+Print Assumptions c19_unknown_option_is_error.
+Theorem c19_unknown_long_option_is_error : forall T name v rest st,
+  mem_str name builtin_long = false -> index_str (map fst (t_options T)) (flagify name) 0 = None ->
+  tokenise T ((45 :: 45 :: name)%N :: v :: rest) st = Error EUnknownOption.
+Proof. exact unknown_long_option_is_error. Qed.
+Print Assumptions c19_unknown_long_option_is_error.
+Theorem c19_missing_value_is_error : forall T name st, mem_str name no_value_names = false ->
   tokenise T [(45 :: 45 :: name)%N] st = Error EMissingValue.
 Proof. exact missing_value_is_error. Qed.
-Print Assumptions c19_missing_value_is_error_partial.
+Print Assumptions c19_missing_value_is_error.
 
 (** non-vacuity: the domain, the levels and the hypotheses of the theorems are inhabited by non-trivial objects *)
 Example c19_example_domain :
@@ -116,5 +144,12 @@ Proof. repeat split; vm_compute; reflexivity. Qed.
 Example c19_example_unknown :
   tokenise gT [s2l "-fno-such-flag"; s2l "x.nmfu"] p0 = Error EUnknownFlag
   /\ tokenise gT [s2l "-x"; s2l "x.nmfu"] p0 = Error EUnknownOption
-  /\ classify (run_cmdline gT [s2l "-O2"; s2l "-fyield-support"; s2l "x.nmfu"]) = 0%N.
+  /\ tokenise gT [s2l "-Ofoo"; s2l "x.nmfu"] p0 = Error EInvalidLevel
+  /\ tokenise gT [s2l "-O9"; s2l "x.nmfu"] p0 = Error EInvalidLevel
+  /\ tokenise gT [s2l "-O-1"; s2l "x.nmfu"] p0 = Error EInvalidLevel
+  /\ tokenise gT [s2l "--flag"; s2l "eof-support=yes=no"; s2l "x.nmfu"] p0 = Error EInvalidFlagValue
+  /\ tokenise gT [s2l "--flag"; s2l "eof-support=maybe"; s2l "x.nmfu"] p0 = Error EInvalidFlagValue
+  /\ tokenise gT [s2l "-dast,,dfa"; s2l "x.nmfu"] p0 = Error EUnknownDump
+  /\ parse_level gm (s2l "foo") = None /\ flag_value (s2l "maybe") = None
+  /\ classify (run_cmdline gT [s2l "-O2"; s2l "-fyield-support"; s2l "--flag"; s2l "eof-support=on"; s2l "x.nmfu"]) = 0%N.
 Proof. repeat split; vm_compute; reflexivity. Qed.
